@@ -2,9 +2,10 @@
    overflow.  The mapper's only unchecked arithmetic (frame.line - member.startline) is modelled
    with a Panic outcome and shown unreachable for the records of EVERY byte string; the cache
    reader uses checked arithmetic (see C12); the writer's u32 counters cannot wrap for mappings
-   below 2^32 bytes.  Runtime behaviour the model cannot exhibit: the typed API recurses on the
-   cause chain (remap, Display, Drop) and exhausts the stack for chains of about 2*10^4 causes
-   (known finding F8, probed by the check in a subprocess). *)
+   below 2^32 bytes.  Runtime behaviour the model cannot exhibit: stack depth.  The typed API
+   used to recurse on the cause chain (remap, Display, Drop) and exhausted the stack for chains of
+   about 3*10^4 causes (finding F8, repaired by fix commit 5c75dfb); the check probes chains of
+   1000 and 200000 causes in a subprocess with an 8 MiB stack. *)
 From PG Require Import Base Mapping Spec Mapper CacheWriter CacheReader CacheStructDefs SafetyProofs PipelineTotal.
 
 Theorem C13_mapper_never_panics : forall ix (b : list N) c m line file,
